@@ -1444,6 +1444,8 @@ static int dd_source_name(struct demangle_data *dd)
 		dd_append_len(dd, separator, dollar - separator);
 
 		for (i = 0; i < ARRAY_SIZE(rust_mappings); i++) {
+			if (dollar + strlen(rust_mappings[i].code) + 2 > end)
+				continue;
 			if (strncmp(rust_mappings[i].code, dollar + 1,
 				    strlen(rust_mappings[i].code)))
 				continue;
